@@ -681,6 +681,12 @@ pub fn conway(payload: &[u8]) -> Result<DTx, DecErr> {
                     tx.remarks.push("withdrawals: empty map".into());
                 }
                 dup_check(&w.iter().map(|x| x.0.clone()).collect::<Vec<_>>(), "withdrawals", &mut tx.remarks);
+                // a reward account is a header byte (0xe_ key, 0xf_ script; low nibble = network) and a 28-byte hash
+                for (a, _) in &w {
+                    if a.len() != 29 || !matches!(a[0] >> 4, 14 | 15) || a[0] & 0x0f > 1 {
+                        tx.remarks.push(format!("withdrawals: reward account {} is not a header byte and a 28-byte hash", hex::encode(a)));
+                    }
+                }
                 tx.withdrawals = Some(w);
             }
             7 => tx.aux_hash = Some(v.as_bytes()?.to_vec()),
